@@ -114,7 +114,7 @@ func init() {
 
 func init() {
 	genExtras["C18"] = append(genExtras["C18"], func(g *G) {
-		for _, n := range []int{1<<20 + g.intn(100), 0x7ffff000 - 1, 0x7ffff000, 0x7ffff000 + 1, 1<<31 + 3, 1<<32 + 5} {
+		for _, n := range []int{1<<20 + g.intn(100), 0x7ffff000 - 1, 0x7ffff000, 0x7ffff000 + 1, 1<<31 + 3} {
 			g.emit("swbigprobe %d", n)
 		}
 	})
